@@ -139,9 +139,35 @@ def run(ctx):
     coarsing, rad = T.sym(g.params[1]), T.sym(g.params[2])
     res = T.call(ST, (SELF, coarsing, rad))
     ps = [x for x in sg.stores("principal_stress") if x.sub]
-    if len(ps) != 1:
+    if not ps:
         raise AnalysisError("calculate_stress_tensor: store into principal_stress not found")
+
+    def eig_of(val):
+        """the eig(...) call a stored pair is made of: the call itself, or its pairs re-ordered consistently - values w[P] together with
+        the eigenvector *columns* V[:, P] for one and the same P.  -> (eig call or None, description of an inconsistency or None)"""
+        if val[0] == "call" and val[1] == "numpy.linalg.eig":
+            return val, None
+        if val[0] == "seq" and len(val[1]) == 2:
+            w, v = val[1]
+            if w[0] == "idx" and w[1][0] == "idx" and w[1][2] == T.num(0) and w[1][1][0] == "call" and w[1][1][1] == "numpy.linalg.eig":
+                E, P = w[1][1], w[2]
+                if v == T.idx(T.idx(E, T.num(1)), T.seq((("slice", ("none",), ("none",), ("none",)), P))):
+                    return E, None
+                if v[0] == "idx" and v[1] == T.idx(E, T.num(1)):
+                    return E, (f"the eigenvalues are re-ordered by {T.show(T.alpha(P))[:80]} but the eigenvector matrix is indexed by "
+                               f"{T.show(T.alpha(v[2]))[:80]} - its rows, or another order - so column i is no longer the eigenvector of value i")
+        return None, None
+    # one store per configuration of the function's options: each of them has to be the decomposition
+    for extra in ps[1:]:
+        E, bad = eig_of(extra.value)
+        ctx.check(E is not None and bad is None and E == eig_of(ps[0].value)[0] and extra.key == ps[0].key, "FORM",
+                  f"{g.qualname} / FORM / every option stores eigenvalues with their own eigenvectors", ctx.where(g, extra.node),
+                  "pairs of eig(tensor), possibly re-ordered as (w[P], V[:, P])",
+                  bad or f"under {[T.show(c)[:60] for c in extra.conds()]} the stored value is {T.show(T.alpha(extra.value))[:200]}")
     x = ps[0]
+    E0, bad0 = eig_of(x.value)
+    if bad0:
+        ctx.violation("FORM", f"{g.qualname} / FORM / every option stores eigenvalues with their own eigenvectors", ctx.where(g, x.node), bad0, soft=True)
     lp = x.loops()
     if len(lp) != 2:
         raise AnalysisError("calculate_stress_tensor: the principal-stress store is not inside the (row, column) double loop")
@@ -149,7 +175,7 @@ def run(ctx):
     if ro_r.pos is None or ro_c.pos is None:
         raise AnalysisError("calculate_stress_tensor: the double loop does not run over grid positions - re-bind the anchor")
     r2, c2 = ro_r.pos, ro_c.pos
-    val = x.value
+    val = E0 if E0 is not None else x.value
     ok_eig = val[0] == "call" and val[1] == "numpy.linalg.eig" and val[2][0][0] == "idx" and val[2][0][1] == T.idx(res, T.num(0))
     rkey = val[2][0][2] if ok_eig else None
     wkey = T.substitute(e.key, {grid: coarsing, row: r2, col: c2})
@@ -248,8 +274,12 @@ PINNED = [
     ("reader key width from a constant", _F, "        key_width = len(str(coarsing - 1))\n", "        key_width = 1\n"),
     ("zero branch for small areas", _P, "            if total_area == 0:\n", "            if total_area <= 1:\n"),
     ("principal stress keyed by swapped centres", _F, "self.principal_stress[(self.stress_tensor[1][0][row], \n                                            self.stress_tensor[1][1][column])]", "self.principal_stress[(self.stress_tensor[1][1][row], \n                                            self.stress_tensor[1][0][column])]"),
+    ("principal stresses sorted, eigenvector matrix re-ordered by rows", _F, "                                            self.stress_tensor[1][1][column])] = principal_component",
+     "                                            self.stress_tensor[1][1][column])] = (principal_component[0][np.argsort(principal_component[0])], principal_component[1][np.argsort(principal_component[0])])"),
 ]
 PRESERVING = [
+    ("principal stresses sorted together with their eigenvector columns", _F, "                                            self.stress_tensor[1][1][column])] = principal_component",
+     "                                            self.stress_tensor[1][1][column])] = (principal_component[0][np.argsort(principal_component[0])], principal_component[1][:, np.argsort(principal_component[0])])"),
     ("reductions spelled as numpy functions", _P, 'total_area = current_cell_mesh["area"].sum()', 'total_area = np.sum(current_cell_mesh["area"])'),
     ("mean area through np.mean", _P, 'min_distance = radius * np.sqrt(cells["area"].mean() / np.pi)', 'min_distance = radius * np.sqrt(np.mean(cells["area"]) / np.pi)'),
     ("key with a separator", _P, 'sigmas[f"' + _KW + '"] = np.array([[sigma_xx', 'sigmas[f"' + _KW + '"] = np.array([[sigma_xx'),
